@@ -28,7 +28,7 @@ ASSUMPTIONS = ['strings are not capped by the property; they enter the bound B o
                'known findings are keyed by the producing site, so a new unguarded site is still reported']
 REAL = ['smartquery.*', 'regex (benign patterns)']
 STUB = ['host (supplies boundary containers, observes them from outside)']
-REACH_PROBES = ('host_calls_stored_lambda', 'adder_refused_at_cap', 'adder_accepted_below_cap', 'refused_then_judged', 'len_9999_to_10000',
+REACH_PROBES = ('not_yet_in_the_language', 'host_calls_stored_lambda', 'adder_refused_at_cap', 'adder_accepted_below_cap', 'refused_then_judged', 'len_9999_to_10000',
                 'growth_chain', 'oversize_seen', 'dict_at_cap', 'list_at_cap', 'pop_then_push_at_boundary')
 
 SIZES = [0, 1, 9998, 9999, 10000, 10001]
@@ -45,13 +45,15 @@ def _world(r):
     names['st'] = r.choice(['a b', 'ab', 'a,b,c'])
     names['sm'] = {'m': [['a', 1]]}
     names['k3'] = 3             # a host int (not a Decimal literal)
+    if r.random() < 0.3:
+        names['dd'] = {'ddrange': r.choice([9999, 10000, 10000])}      # a host collections.defaultdict at the boundary
     names['hl'] = {'range': r.choice([101, 150])}
     return {'names': names, 'host_fns': []}
 
 
 def _targets(model):
     out = []
-    for nm in ('big', 'bigd', 'x', 'e', 'sm', 'y'):
+    for nm in ('big', 'bigd', 'x', 'e', 'sm', 'y', 'dd', 'dd'):
         v = model.host.get(nm)
         if isinstance(v, (list, dict)):
             out.append((['name', nm], v))
@@ -68,7 +70,13 @@ def _gen_op(r, model):
     te, obj = r.choice(tg)
     n = len(obj)
     is_list = isinstance(obj, list)
-    k = weighted(r, [('add', 8), ('remove', 3), ('grow', 5), ('derive', 4), ('read', 1), ('hostcall', 1.2)])
+    k = weighted(r, [('add', 8), ('remove', 3), ('grow', 5), ('derive', 4), ('read', 1), ('hostcall', 1.2), ('newsyntax', 0.8)])
+    if k == 'newsyntax' and te[0] == 'name':
+        # statement forms that are not in the language today (a syntax error changes nothing); should one ever be
+        # added it must respect the cap like every other adder
+        s = r.choice(['%s[0:0] = [1, 2, 3]', '%s[:] = %s + [1, 2, 3]', '%s[1:2] = [7, 7, 7, 7]', '%s.extend([1, 2, 3])', 'extend(%s, [1, 2, 3])',
+                      '%s[len(%s):] = [1, 2, 3]', 'update(%s, {"n1": 1, "n2": 2, "n3": 3})', 'append(%s, 1, 2, 3)'])
+        return ['src', s.replace('%s', te[1])], 'newsyntax'
     if k == 'hostcall':
         if getattr(model.host.get('adder'), '_sim_kind', '') == 'lambda' and r.random() < 0.7:
             return ['hostcall', 'adder', [['num', '5']]], 'hostcall'
@@ -89,7 +97,11 @@ def _gen_op(r, model):
             if a == 'push':
                 return ['call', 'push', [te, val], gen.sugar(r, 2)], 'push'
             if a == 'insert':
-                return ['call', 'insert', [te, ['num', str(r.choice([0, n // 2, n]))], val], gen.sugar(r, 3)], 'insert'
+                idx = ['num', str(r.choice([0, n // 2, n]))]
+                if r.random() < 0.15:
+                    inf = ['call', 'float', [['str', r.choice(['inf', 'Infinity', 'nan'])]], 'plain']
+                    idx = r.choice([inf, ['neg', inf], ['neg', ['num', '99999999999999999999']]])
+                return ['call', 'insert', [te, idx, val], gen.sugar(r, 3)], 'insert'
             if a == 'set':
                 return ['setitem', te, ['num', str(r.randrange(n) if n else 0)], val], 'setitem'
             if a == 'setnew':
@@ -101,6 +113,8 @@ def _gen_op(r, model):
         key = ['str', str(r.randrange(n))] if n and 'range' in str(type(obj)) or (n and '0' in obj) else ['str', 'a']
         if a == 'set':
             return ['setitem', te, key, val], 'setitem'
+        if r.random() < 0.5:
+            key = ['str', 'absent%d' % r.randint(0, 3)]      # compound assignment to a key that is not there
         return ['setitemop', te, key, r.choice(['+=', '-=']), ['num', '1']], 'setitemop'
     if k == 'remove':
         if is_list:
@@ -180,6 +194,9 @@ def generate(seed, tier):
     ops = []
     for _ in range(rc.randint(4, 16)):
         prog, kind = _gen_op(ro, model)
+        if kind == 'newsyntax':
+            ops.append({'op': 'src', 'src': prog[1], 'kind': kind})
+            continue
         if kind == 'hostcall':
             ops.append({'op': 'hostcall', 'fn': prog[1], 'kind': kind})
             try:
@@ -240,6 +257,22 @@ def execute(case, ctx):
 
     for step, op in enumerate(case['ops']):
         ctx.step = step
+        if op['op'] == 'src':
+            from ..world import real_eval as _re
+            before = canon.canon(W.names, monitors.M.fn_names)
+            rout = _re(W.parser, op['src'], W.names, budget=10 ** 6)
+            ctx.probe('not_yet_in_the_language')
+            ctx.event(step, 'src', rout.kind)
+            big_now = [len(o) for v in W.names.values() for o in canon.reachable_mutables(v).values() if len(o) > biggest[0]]
+            if big_now:
+                ctx.report('cap_bypass', 'step %d %r: after the call a container of %d elements is reachable from names (bound %d)' % (
+                    step, op['src'], max(big_now), B), {'kind': 'cap_bypass', 'site': 'statement:' + op['src'].split('(')[0].split('[')[0][:12]})
+            if rout.kind != 'value' and canon.canon(W.names, monitors.M.fn_names) != before:
+                ctx.report('failed_statement_changed_state', 'step %d %r failed (%s) but changed the names mapping' % (step, op['src'], rout.brief()[:2]),
+                           {'kind': 'failed_statement_changed_state'})
+            if rout.kind == 'value':
+                break       # a form the reference model does not know was accepted: the model cannot follow from here
+            continue
         if op['op'] == 'hostcall':
             # the host itself invokes a lambda a program left in names, outside any eval call: the program's code
             # still must not grow a container past the cap
@@ -363,4 +396,4 @@ def simplify(case):
 
 
 def sample(case):
-    return {'world': case['world'], 'ops': [lang.render(o['prog'], 0) if 'prog' in o else {'host_calls': o['fn']} for o in case['ops']]}
+    return {'world': case['world'], 'ops': [lang.render(o['prog'], 0) if 'prog' in o else (o.get('src') or {'host_calls': o.get('fn')}) for o in case['ops']]}
